@@ -223,6 +223,11 @@ func clientID(i int) string {
 }
 func clientSecret(i int) string { return fmt.Sprintf("secret-of-c%d", i) }
 func clientRedirect(i int) string {
+	if i%2 == 1 {
+		// every second client is a native app with a loopback redirect URI (RFC 8252): the token endpoint must still compare
+		// the redirect_uri of the authorization request as a string, port included
+		return fmt.Sprintf("http://127.0.0.1:%d/cb", 48100+i)
+	}
 	return fmt.Sprintf("https://app-c%d.example/cb", i)
 }
 
@@ -434,6 +439,8 @@ func (w *world) exec(op *HOp) HObs {
 			}
 		case "authorize_par":
 			q.Set("client_id", clientID(op.Client))
+			// a conflicting state next to the request_uri: the pushed one ("state-0123456789") must win
+			q.Set("state", "state-from-the-query-9876543210")
 			if op.Tok.Ref >= 0 && op.Tok.Ref < len(w.issued) {
 				q.Set("request_uri", w.issued[op.Tok.Ref].tok)
 			} else {
@@ -520,6 +527,12 @@ func (w *world) exec(op *HOp) HObs {
 			// the response mode the answer will be written in (reported only when it is not the flow's default)
 			if requestedMode != fosite.ResponseModeDefault && requestedMode != fosite.ResponseModeQuery {
 				o.Scopes = []string{string(requestedMode)}
+			}
+			// ... and the state it proceeds with and answers with (reported only when it is not the pushed one)
+			if st := ar.GetState(); st != "state-0123456789" {
+				o.Scopes = append(o.Scopes, "state="+st)
+			} else if st := resp.GetParameters().Get("state"); st != "state-0123456789" {
+				o.Scopes = append(o.Scopes, "answered-state="+st)
 			}
 		}
 	case "redeem", "refresh":
